@@ -54,12 +54,7 @@ Definition st_after (s : bool) (a : list byte) : bool :=
   match a with [] => s | _ => last_is_lf a end.
 
 Lemma last_is_lf_cons c a : a <> [] -> last_is_lf (c :: a) = last_is_lf a.
-Proof.
-  intro H. unfold last_is_lf. cbn [rev].
-  destruct (rev a) as [|x r] eqn:E.
-  - apply (f_equal (@rev _)) in E. rewrite rev_involutive in E. cbn in E. congruence.
-  - reflexivity.
-Qed.
+Proof. destruct a; [easy|]. intros _. reflexivity. Qed.
 
 Lemma last_is_lf_app a b : b <> [] -> last_is_lf (a ++ b) = last_is_lf b.
 Proof.
@@ -67,14 +62,17 @@ Proof.
   cbn [app]. rewrite last_is_lf_cons; [exact IH|]. destruct a; cbn; [exact H|easy].
 Qed.
 
+Lemma st_after_cons s c a : st_after s (c :: a) = st_after (N.eqb c LF) a.
+Proof.
+  unfold st_after. destruct a as [|d a]; [reflexivity|].
+  apply (last_is_lf_cons c (d :: a)). easy.
+Qed.
+
 Lemma ind_sm_app p s a b :
   ind_sm p s (a ++ b) = ind_sm p s a ++ ind_sm p (st_after s a) b.
 Proof.
   revert s. induction a as [|c a IH]; intro s; [reflexivity|].
-  cbn [app ind_sm]. rewrite IH. rewrite <- app_assoc. cbn [app].
-  do 3 f_equal. f_equal. unfold st_after. destruct a as [|d a].
-  - cbn. reflexivity.
-  - rewrite (last_is_lf_cons c (d :: a)) by easy. reflexivity.
+  cbn [app ind_sm]. rewrite IH, st_after_cons. rewrite <- app_assoc. cbn [app]. reflexivity.
 Qed.
 
 Lemma ind_sm_last p s b : b <> [] -> last_is_lf (ind_sm p s b) = last_is_lf b.
